@@ -485,7 +485,7 @@ func c05Bootstrap(c *core.Ctx, id string, idx int) {
 	l := bs.Listen("mock://srv:1")
 	l.Async(func(error) {})
 	var as []*mon.MockAcceptor
-	for i := 0; i < 20000 && len(as) == 0; i++ {
+	for dl := time.Now().Add(5 * time.Second); len(as) == 0 && time.Now().Before(dl); {
 		as, _ = f.Snapshot()
 		runtime.Gosched()
 	}
@@ -504,7 +504,7 @@ func c05Bootstrap(c *core.Ctx, id string, idx int) {
 	ch, err := bs.Connect("mock://peer:2")
 	connectRet := mon.Tick()
 	// wait until the accept loop asked for the next connection after the last inject
-	for i := 0; i < 200000; i++ {
+	for dl := time.Now().Add(5 * time.Second); time.Now().Before(dl); {
 		amu.Lock()
 		k := len(acceptTicks)
 		amu.Unlock()
